@@ -130,7 +130,8 @@ def run_task(task):
             rec(t2, r2, h2)
     try:
         rec(make(), MultiRef(dyn, alpha), [])
-    except Violation as v:
+    except Exception as e:
+        v = e if isinstance(e, Violation) else choice.library_exception(e, f'for MultiValueTracker task {task}')
         viol.append((v.key, v.what, {}, ()))
     return dict(task=list(task), transitions=n[0], states=len(states), violations=viol)
 
